@@ -194,7 +194,7 @@ package jsonapi
 //@ requires arg: attr.Name != "" && validKind(attr.Type)
 //@ modifies obj[SoftResource](sr), obj[Type](sr.Type), map[map[string]any](sr.data), map[map[string]Attr](sr.Type.Attrs), new[Type], new[map[string]any], new[map[string]Attr], new[map[string]Rel], new[time.Time], new[uint8], new[string]
 //@ ensures added-if-free: !old(sr.Type != nil && (attr.Name in sr.Type.Attrs || attr.Name in sr.Type.Rels)) ==> attr.Name in sr.Type.Attrs && sr.Type.Attrs[attr.Name] == attr
-//@ ensures kept-if-taken: old(sr.Type != nil && attr.Name in sr.Type.Attrs) ==> sr.Type.Attrs[attr.Name] == old(sr.Type.Attrs[attr.Name])
+//@ ensures kept-if-taken: old(sr.Type != nil && attr.Name in sr.Type.Attrs) ==> attr.Name in sr.Type.Attrs && sr.Type.Attrs[attr.Name] == old(sr.Type.Attrs[attr.Name])
 //@ ensures others: forall k string :: k != attr.Name ==> (k in sr.Type.Attrs) == old(sr.Type != nil && k in sr.Type.Attrs) && (k in sr.Type.Attrs ==> sr.Type.Attrs[k] == old(sr.Type.Attrs[k]))
 //@ ensures shape: srShape(sr)
 //@ ensures kept: forall k string :: k != attr.Name && k in old(mapdom(sr.data)) && srIsField(sr, k) ==> k in sr.data && sr.data[k] == old(mapval(sr.data))[k]
@@ -209,6 +209,7 @@ package jsonapi
 //@ requires arg: rel.FromName != "" && rel.ToType != ""
 //@ modifies obj[SoftResource](sr), obj[Type](sr.Type), map[map[string]any](sr.data), map[map[string]Rel](sr.Type.Rels), new[Type], new[map[string]any], new[map[string]Attr], new[map[string]Rel], new[time.Time], new[uint8], new[string]
 //@ ensures added-if-free: !old(sr.Type != nil && (rel.FromName in sr.Type.Attrs || rel.FromName in sr.Type.Rels)) ==> rel.FromName in sr.Type.Rels && sr.Type.Rels[rel.FromName] == rel
+//@ ensures kept-if-taken: old(sr.Type != nil && rel.FromName in sr.Type.Rels) ==> rel.FromName in sr.Type.Rels && sr.Type.Rels[rel.FromName] == old(sr.Type.Rels[rel.FromName])
 //@ ensures others: forall k string :: k != rel.FromName ==> (k in sr.Type.Rels) == old(sr.Type != nil && k in sr.Type.Rels) && (k in sr.Type.Rels ==> sr.Type.Rels[k] == old(sr.Type.Rels[k]))
 //@ ensures shape: srShape(sr)
 //@ ensures kept: forall k string :: k != rel.FromName && k in old(mapdom(sr.data)) && srIsField(sr, k) ==> k in sr.data && sr.data[k] == old(mapval(sr.data))[k]
@@ -260,3 +261,41 @@ package jsonapi
 //@ loop 1 invariant attrs-done: forall k string :: (k in ctyp.Attrs) == (k in t.Attrs) && (k in t.Attrs ==> ctyp.Attrs[k] == t.Attrs[k])
 //@ loop 1 invariant copied: forall k string :: visited(k) ==> k in ctyp.Rels && ctyp.Rels[k] == t.Rels[k]
 //@ loop 1 invariant only: forall k string :: k in ctyp.Rels ==> k in t.Rels && ctyp.Rels[k] == t.Rels[k]
+
+//@ func Type.New
+//@ props C17 C18
+//@ requires nonnil: t != nil
+//@ modifies all
+//@ ensures soft: old(t.NewFunc) == nil ==> dyn(result) == type[*SoftResource] && fresh(unbox(result, type[*SoftResource])) && unbox(result, type[*SoftResource]).Type == t && unbox(result, type[*SoftResource]).id == "" && unbox(result, type[*SoftResource]).data == nil
+
+//@ spec asSoft(r Resource) = unbox(r, type[*SoftResource])
+
+//@ func SoftResource.New
+//@ props C17 C18
+//@ requires nonnil: sr != nil
+//@ requires wf: srTypeWf(sr)
+//@ modifies obj[SoftResource](sr), obj[Type](sr.Type), map[map[string]any](sr.data), new[Type], new[map[string]any], new[map[string]Attr], new[map[string]Rel], new[time.Time], new[uint8], new[string], new[SoftResource]
+//@ ensures soft: dyn(result) == type[*SoftResource] && fresh(asSoft(result)) && asSoft(result) != sr
+//@ ensures zeroed: asSoft(result).id == "" && asSoft(result).data == nil
+//@ ensures own-type: fresh(asSoft(result).Type) && asSoft(result).Type != sr.Type && fresh(asSoft(result).Type.Attrs) && fresh(asSoft(result).Type.Rels)
+//@ ensures same-name: asSoft(result).Type.Name == sr.Type.Name
+//@ ensures same-attrs: forall k string :: (k in asSoft(result).Type.Attrs) == (k in sr.Type.Attrs) && (k in sr.Type.Attrs ==> asSoft(result).Type.Attrs[k] == sr.Type.Attrs[k])
+//@ ensures same-rels: forall k string :: (k in asSoft(result).Type.Rels) == (k in sr.Type.Rels) && (k in sr.Type.Rels ==> asSoft(result).Type.Rels[k] == sr.Type.Rels[k])
+//@ ensures source-kept: srShape(sr) && sr.id == old(sr.id) && dataKept(sr)
+
+//@ func SoftResource.Copy
+//@ props C18 C17
+//@ requires nonnil: sr != nil
+//@ requires wf: srTypeWf(sr)
+//@ modifies obj[SoftResource](sr), obj[Type](sr.Type), map[map[string]any](sr.data), new[Type], new[map[string]any], new[map[string]Attr], new[map[string]Rel], new[time.Time], new[uint8], new[string], new[SoftResource], new[[]uint8]
+//@ ensures soft: dyn(result) == type[*SoftResource] && fresh(asSoft(result)) && asSoft(result) != sr
+//@ ensures same-id: asSoft(result).id == sr.id && sr.id == old(sr.id)
+//@ ensures own-type: fresh(asSoft(result).Type) && asSoft(result).Type != sr.Type && fresh(asSoft(result).Type.Attrs) && fresh(asSoft(result).Type.Rels)
+//@ ensures own-data: asSoft(result).data != nil && fresh(asSoft(result).data) && asSoft(result).data != sr.data
+//@ ensures same-name: asSoft(result).Type.Name == sr.Type.Name
+//@ ensures same-attrs: forall k string :: (k in asSoft(result).Type.Attrs) == (k in sr.Type.Attrs) && (k in sr.Type.Attrs ==> asSoft(result).Type.Attrs[k] == sr.Type.Attrs[k])
+//@ ensures same-rels: forall k string :: (k in asSoft(result).Type.Rels) == (k in sr.Type.Rels) && (k in sr.Type.Rels ==> asSoft(result).Type.Rels[k] == sr.Type.Rels[k])
+//@ ensures same-scalars: forall k string :: k in sr.data && copiedByValue(dyn(sr.data[k])) ==> k in asSoft(result).data && asSoft(result).data[k] == sr.data[k]
+//@ ensures own-bytes: forall k string :: k in sr.data && dyn(sr.data[k]) == type[[]uint8] ==> k in asSoft(result).data && dyn(asSoft(result).data[k]) == type[[]uint8] && fresh(sl(asSoft(result).data[k], type[[]byte])) && sameBytes(sl(asSoft(result).data[k], type[[]byte]), sl(sr.data[k], type[[]byte]))
+//@ ensures own-ids: forall k string :: k in sr.data && dyn(sr.data[k]) == type[[]string] ==> k in asSoft(result).data && dyn(asSoft(result).data[k]) == type[[]string] && fresh(sl(asSoft(result).data[k])) && sameStrings(sl(asSoft(result).data[k]), sl(sr.data[k]))
+//@ ensures source-kept: srShape(sr) && dataKept(sr)
